@@ -15,12 +15,12 @@ variable {cfg : JointConfig} {c0 : Nat} {h : List Sys}
 
 
 /-- **an up-to-date log holds the committed entry** (in its ghost log) -/
-theorem upto_has (H : Hyp3 cfg c0 h) {n : Nat} (S : SAll h c0 n) {a : Sys} (ha : h[n]? = some a)
+theorem upto_has (H : Hyp3a cfg c0 h) {n : Nat} (S : SAll h c0 n) {a : Sys} (ha : h[n]? = some a)
     {v : Nat} {st : NState} (hv : a.node v = some st) {E : Ev} (hE : E.ok h) {lt : Nat}
     (hlt : st.raft.raftLog.lastTerm = .ok lt)
     (hup : E.t < lt ∨ (lt = E.t ∧ E.c ≤ st.raft.raftLog.lastIndex)) :
     Has (FL h c0 st) E.c E.t := by
-  have H2 := H.toHyp2
+  have H2 := H.toHyp2w
   have o := node_ok H2 ha hv
   have I := node_full H2 n a ha v st hv
   obtain ⟨_, _, hc0⟩ := Ev.leaderLog H2 hE
@@ -69,12 +69,12 @@ theorem upto_has (H : Hyp3 cfg c0 h) {n : Nat} (S : SAll h c0 n) {a : Sys} (ha :
     · omega
     · rw [c1, hp] at c4; omega
 
-theorem lc_step (H : Hyp3 cfg c0 h) {n : Nat} (S : SAll h c0 n) {a b : Sys}
+theorem lc_step (H : Hyp3a cfg c0 h) {n : Nat} (S : SAll h c0 n) {a b : Sys}
     (ha : h[n]? = some a) (hb : h[n + 1]? = some b) :
     ∀ E : Ev, E.ok h → ∀ l st', b.node l = some st' → st'.raft.state = .leader →
       E.t < st'.raft.term → Has (FL h c0 st') E.c E.t := by
   intro E hE l st' hlb hlead hEt
-  have H2 := H.toHyp2
+  have H2 := H.toHyp2w
   have Sa := S n a (Nat.le_refl _) ha
   obtain ⟨k, stk, stk', hka, hkb, hoth, hs⟩ := stp_of H2 ha hb
   by_cases hlk : l = k
